@@ -410,7 +410,7 @@ def c_pickle(case, ctx):
         back = mio.import_pickle(_as_fp(p, not case["as_path"]))
     n_arrays = sum(1 for _, leaf in digest.walk(obj) if isinstance(leaf, np.ndarray) and leaf.size)
     ctx.nontrivial(n_arrays >= 1)
-    diff = digest.state_diff(obj, back, skip=_SKIP_PATH)
+    diff = digest.state_diff(obj, back, skip=_SKIP_PATH, memo_tolerant=True)
     ctx.expect(diff is None, "pickle.state", lambda: "%s via %s: %s" % (type(obj).__name__, case["file"], diff))
 
 
